@@ -99,6 +99,43 @@ def evaluate(cont, groups, perm_seed):
                 if v != exp:
                     sig = f"soft-check[{name}]:" + ("accepts-invalid" if v == "ok" else ("rejects-valid" if exp == "ok" else f"wrong-error:{v}"))
                     raise Violation(sig, f"{lab}: verdict {v}, expected {exp}; counts {counts} groups {groups}")
+    # the explicit continuum argument is what counts, even a continuum without any unit (every alignment without a
+    # repeated tuple is then vacuously a partition of it)
+    if groups and not foreign and all(k <= 1 for k in counts):
+        empty = pa.Continuum()
+        for a in names:
+            empty.add_annotator(a)
+        uas = build(0, False)
+        for name, v in (("explicit-empty-continuum", verdict(lambda: pa.Alignment(uas).check(empty))),
+                        ("explicit-empty-continuum-overrides-attached", verdict(lambda: pa.Alignment(uas, continuum=c).check(empty)))):
+            if v != "ok":
+                raise Violation(f"check[{name}]:rejects-valid", f"verdict {v} against a continuum without units; groups {groups}")
+    # history on the SAME continuum object: after the checks above, one unit is removed in place (from the continuum and
+    # from the alignment) and the verdicts must follow
+    if groups and not foreign:
+        target = next(((a, u) for g in groups for a, u in zip(names, g) if u is not None), None)
+        if target is not None and sum(len(v) for v in per.values()) > 1:
+            a0, u0 = target
+            c.remove(a0, pa.Unit(Segment(u0[0], u0[1]), u0[2]))
+            groups2 = [[None if (a == a0 and u == u0) else u for a, u in zip(names, g)] for g in groups]
+            groups2 = [g for g in groups2 if any(x is not None for x in g)]
+            cnt2 = {}
+            for g in groups2:
+                for a, u in zip(names, g):
+                    if u is not None:
+                        cnt2[(a, u)] = cnt2.get((a, u), 0) + 1
+            universe2 = universe - {(a0, u0)}
+            valid2 = all(cnt2.get(t, 0) == 1 for t in universe2)
+            covered2 = all(cnt2.get(t, 0) >= 1 for t in universe2)
+            if groups2:
+                uas2 = [pa.UnitaryAlignment([(a, None if u is None else pa.Unit(Segment(u[0], u[1]), u[2])) for a, u in zip(names, g)]) for g in groups2]
+                for name, v, exp in (("explicit", verdict(lambda: pa.Alignment(uas2).check(c)), "ok" if valid2 else "partition-error"),
+                                     ("constructor", verdict(lambda: pa.Alignment(uas2, continuum=c, check_validity=True)), "ok" if valid2 else "partition-error"),
+                                     ("soft-explicit", verdict(lambda: SoftAlignment(uas2).check(c)), "ok" if covered2 else "partition-error")):
+                    if v != exp:
+                        raise Violation(f"check[{name}]:after-in-place-remove:" + ("accepts-invalid" if v == "ok" else "rejects-valid-or-wrong-error"),
+                                        f"verdict {v}, expected {exp}; removed {a0}->{u0}; groups {groups2}")
+                classes.append("re-checked-after-remove")
     off_by_one = sum(abs(k - 1) for k in counts) == 1
     classes.append("valid" if valid else ("cover-only" if covered else "missing-unit"))
     if off_by_one:
